@@ -274,12 +274,14 @@ void circuit_read_operations(Circuit &circuit, SOURCE read_char, READ_CONDITION 
 
         if (new_op.gate_type == GateType::REPEAT) {
             if (new_op.targets.size() != 2) {
+                ops.pop_back();
                 throw std::invalid_argument("Invalid instruction. Expected one repetition arg like `REPEAT 100 {`.");
             }
             uint32_t rep_count_low = new_op.targets[0].data;
             uint32_t rep_count_high = new_op.targets[1].data;
             uint32_t block_id = (uint32_t)circuit.blocks.size();
             if (rep_count_low == 0 && rep_count_high == 0) {
+                ops.pop_back();
                 throw std::invalid_argument("Repeating 0 times is not supported.");
             }
 
